@@ -7,4 +7,4 @@ p,old,new=sys.argv[1:4]; s=open(p).read()
 assert s.count(old)>=1, ('pattern not found', old)
 s=s.replace(old,new,1); open(p,'w').write(s)
 PY
-cd /verif; ./check $1 --repo $S ${@:5} 2>&1 | grep -v "^WARNING" | grep -v "^problem" | tail -4; rm -rf $S
+cd /verif; PYVC_WIP=1 ./check $1 --repo $S ${@:5} 2>&1 | grep -v "^WARNING" | grep -v "^problem" | tail -4; rm -rf $S
